@@ -1,0 +1,37 @@
+//! Verification hooks. Only compiled with `--cfg ucg_verif`.
+//!
+//! A thread local work counter that the verification harness uses to turn
+//! "does not terminate / blows up" into a deterministic, replayable failure.
+//! The default limit is `u64::MAX` so behavior is unchanged unless a harness
+//! sets a limit.
+use std::cell::Cell;
+
+thread_local! {
+    static COUNT: Cell<u64> = const { Cell::new(0) };
+    static LIMIT: Cell<u64> = const { Cell::new(u64::MAX) };
+}
+
+/// Resets the counter and sets the limit for the current thread.
+pub fn reset(limit: u64) {
+    COUNT.with(|c| c.set(0));
+    LIMIT.with(|l| l.set(limit));
+}
+
+/// The number of ticks since the last reset.
+pub fn count() -> u64 {
+    COUNT.with(|c| c.get())
+}
+
+/// Counts one unit of work at the named site.
+pub fn tick(site: &'static str) {
+    let n = COUNT.with(|c| {
+        let n = c.get() + 1;
+        c.set(n);
+        n
+    });
+    if n > LIMIT.with(|l| l.get()) {
+        // Disarm so that unwinding code can't trip the limit again.
+        LIMIT.with(|l| l.set(u64::MAX));
+        panic!("ucg_verif: work limit exceeded at {}", site);
+    }
+}
